@@ -1843,10 +1843,14 @@ package xpath
 //@   props C15 C13
 //@   theory stream for C13
 //@   uses one-document
+//@   ensures[context-node@C13] old(c.count) == 0 ==> result != nil && pos(result) == old(pos(cur(t))) && isFresh(result)
+//@   ensures[once@C13] old(c.count) > 0 ==> result == nil
 //@ func (*absoluteQuery).Select
 //@   props C15 C13
 //@   theory stream for C13
 //@   uses one-document
+//@   ensures[document-root@C13] old(a.count) == 0 ==> n != nil && pos(n) == rootof(old(pos(cur(t)))) && isFresh(n)
+//@   ensures[once@C13] old(a.count) > 0 ==> n == nil
 //@ func (*attributeQuery).Select
 //@   props C15 C13
 //@   theory stream for C13
